@@ -57,7 +57,9 @@ FAMILIES_COUNTRY = {
 }
 FAMILIES_GLOBAL = {
     "seasonality": ["baseline_globally", "nuclear_winter_globally", "no_seasonality"],
-    "grasses": ["baseline", "global_nuclear_winter", "all_crops_die_instantly"],
+    # grasses=all_crops_die_instantly is rejected at global scale by its setter (set_country_grasses_to_zero
+    # asserts a country run); it is exercised as a rejected value in C13, not as a workload value here
+    "grasses": ["baseline", "global_nuclear_winter"],
     "crop_disruption": ["zero", "global_nuclear_winter", "all_crops_die_instantly"],
     "waste": [
         "zero",
